@@ -133,6 +133,7 @@ type routeCfg struct {
 	Sel    string
 	Cont   bool
 	Recv   string
+	GBy    string // "" or "g": [g]; "none": []; "all": ['...']
 	T      timers
 	Mute   []tiv
 	Active []tiv
@@ -148,7 +149,11 @@ func (r routeCfg) rec(root bool) map[string]any {
 	if !root {
 		rk = "{}/{" + selMatcher[r.Sel] + "}"
 	}
-	return map[string]any{"rk": rk, "sel": r.Sel, "cont": r.Cont, "recv": r.Recv,
+	gby := r.GBy
+	if gby == "" {
+		gby = "g"
+	}
+	return map[string]any{"rk": rk, "sel": r.Sel, "cont": r.Cont, "recv": r.Recv, "gby": gby,
 		"gw": int64(r.T.gw / time.Millisecond), "gi": int64(r.T.gi / time.Millisecond), "ri": int64(r.T.ri / time.Millisecond),
 		"mute": nonNil(r.Mute), "active": nonNil(r.Active)}
 }
@@ -247,6 +252,12 @@ func (c scenCfg) yaml(integs []integ) string {
 	for _, r := range c.Routes {
 		// the root route may not carry time intervals: child routes do
 		fmt.Fprintf(&sb, "  - matchers: ['%s']\n    receiver: %s\n    continue: %v\n", selMatcher[r.Sel], r.Recv, r.Cont)
+		switch r.GBy {
+		case "none":
+			sb.WriteString("    group_by: []\n")
+		case "all":
+			sb.WriteString("    group_by: ['...']\n")
+		}
 		if r.T != c.T {
 			fmt.Fprintf(&sb, "    group_wait: %s\n    group_interval: %s\n    repeat_interval: %s\n", r.T.gw, r.T.gi, r.T.ri)
 		}
@@ -337,6 +348,17 @@ func genScenario(rng *rand.Rand) (scenCfg, []envEvent, []inst.Window, time.Durat
 		cfg.Routes = []routeCfg{{Sel: "NOA", Cont: true, Recv: "r2", T: cfg.T}, {Sel: "G2", Recv: "r2", T: tOf()}}
 	case 8: // everything continues: every alert in several groups
 		cfg.Routes = []routeCfg{{Sel: "G1", Cont: true, Recv: "r1", T: tOf()}, {Sel: "AX", Cont: true, Recv: "r2", T: tOf()}, {Sel: "ALL", Cont: true, Recv: "r2", T: cfg.T}}
+	}
+	if len(cfg.Routes) > 0 && !flap {
+		// some child routes group differently: one group for everything / one group per alert
+		for i := range cfg.Routes {
+			switch rng.Intn(5) {
+			case 0:
+				cfg.Routes[i].GBy = "none"
+			case 1:
+				cfg.Routes[i].GBy = "all"
+			}
+		}
 	}
 	for _, r := range cfg.Routes {
 		if r.Recv == "r2" && cfg.R2 == nil {
@@ -680,6 +702,20 @@ func TestScenarios(t *testing.T) {
 	}
 }
 
+// labelSetString prints labels as model.LabelSet.String does (the group-label part of a group key).
+func labelSetString(l map[string]string) string {
+	ks := make([]string, 0, len(l))
+	for k := range l {
+		ks = append(ks, k)
+	}
+	sort.Strings(ks)
+	parts := make([]string, 0, len(ks))
+	for _, k := range ks {
+		parts = append(parts, fmt.Sprintf("%s=%q", k, l[k]))
+	}
+	return "{" + strings.Join(parts, ", ") + "}"
+}
+
 func nonNil(x []tiv) []tiv {
 	if x == nil {
 		return []tiv{}
@@ -770,9 +806,9 @@ func apiViews(in *inst.Instance, lg *inst.Log) {
 				mb = append(mb, m)
 			}
 			sort.Strings(mb)
-			out = append(out, map[string]any{"g": g.Labels["g"], "recv": g.Receiver.Name, "alerts": names, "mutedby": mb})
+			out = append(out, map[string]any{"lbl": labelSetString(g.Labels), "recv": g.Receiver.Name, "alerts": names, "mutedby": mb})
 		}
-		sort.SliceStable(out, func(i, j int) bool { return out[i]["g"].(string) < out[j]["g"].(string) })
+		sort.SliceStable(out, func(i, j int) bool { return out[i]["lbl"].(string) < out[j]["lbl"].(string) })
 		lg.Add(inst.Event{Ev: "api.groups", Data: map[string]any{"groups": out}})
 	}
 }
